@@ -167,3 +167,101 @@ def spec_of(desc) -> FormatSpec:
     if fam == 'Real':
         return FormatSpec(None, None)
     raise ValueError(fam)
+
+
+# ---- symbolic (z3) versions of the published layouts: pattern -> (isnan, isinf, neg, scaled magnitude) -----------
+def layout_terms(desc, b, K):
+    """b: z3 BV (oracle width) holding the bit pattern. Returns dict of z3 terms: nan, inf (Bool), neg (Bool),
+    mag (BV, |value| * 2**K)."""
+    import z3
+    if not isinstance(b, z3.ExprRef):
+        from .dsl import WO as _WO
+        import spec.dsl as _d
+        b = z3.BitVecVal(int(b), _d.WO)
+    W = b.size()
+    fam = desc['fam']
+    one = z3.BitVecVal(1, W)
+    F_ = z3.BoolVal(False)
+
+    def c(v):
+        return z3.BitVecVal(v, W)
+    if fam in ('IEEE', 'EFloat'):
+        if fam == 'IEEE':
+            es, nbits, inf, nk, eo = desc['es'], desc['nbits'], True, 'IEEE_754', 0
+        else:
+            es, nbits, inf, nk, eo = desc['es'], desc['nbits'], desc['enable_inf'], desc['nan_kind'], desc['eoffset']
+        m = nbits - es - 1
+        neg = z3.Extract(nbits - 1, nbits - 1, b) == 1
+        e = z3.LShR(b, m) & c((1 << es) - 1)
+        f = b & c((1 << m) - 1)
+        magbits = b & c((1 << (nbits - 1)) - 1)
+        allones = c((1 << (nbits - 1)) - 1)
+        bias = (1 << (es - 1)) - 1 if es > 0 else 0
+        emin = 1 - bias + eo
+        if nk == 'IEEE_754':
+            top = e == c((1 << es) - 1)
+            isinf = z3.And(top, f == 0) if inf else F_
+            isnan = z3.And(top, z3.Not(isinf))
+        elif nk == 'MAX_VAL':
+            isnan = magbits == allones
+            isinf = (magbits == allones - 1) if inf else F_
+        else:
+            isinf = (magbits == allones) if inf else F_
+            isnan = z3.And(neg, magbits == 0) if nk == 'NEG_ZERO' else F_
+        # finite value: e == 0 -> f * 2^(emin - m); else (2^m + f) * 2^(e - bias + eo - m)
+        sh0 = emin - m + K
+        assert sh0 >= 0, 'K too small for the format'
+        sub = f << c(sh0)
+        nor = (c(1 << m) | f) << (e - 1 + c(sh0))
+        mag = z3.If(e == 0, sub, nor) if es > 0 else sub
+        return dict(nan=isnan, inf=isinf, neg=neg, mag=mag)
+    if fam == 'Fixed':
+        nb, sc = desc['nbits'], desc['scale']
+        if desc['signed']:
+            neg = z3.Extract(nb - 1, nb - 1, b) == 1
+            mag = z3.If(neg, c(1 << nb) - b, b)
+        else:
+            neg = F_; mag = b
+        return dict(nan=F_, inf=F_, neg=neg, mag=mag << c(sc + K))
+    if fam == 'SMFixed':
+        nb, sc = desc['nbits'], desc['scale']
+        neg = z3.Extract(nb - 1, nb - 1, b) == 1
+        mag = b & c((1 << (nb - 1)) - 1)
+        return dict(nan=F_, inf=F_, neg=neg, mag=mag << c(sc + K))
+    if fam == 'Exp':
+        nb, eo = desc['nbits'], desc.get('eoffset', 0)
+        bias = (1 << (nb - 1)) - 1 - eo
+        isnan = b == c((1 << nb) - 1)
+        mag = one << (b - c(bias) + c(K))
+        return dict(nan=isnan, inf=F_, neg=F_, mag=mag)
+    raise ValueError(fam)
+
+
+def layout_concrete(desc, bits, K):
+    """concrete twin of layout_terms (used by the replay judge)"""
+    fam = desc['fam']
+    if fam in ('IEEE', 'EFloat'):
+        if fam == 'IEEE':
+            d = efloat_decode(desc['es'], desc['nbits'], True, 'IEEE_754', 0, bits)
+        else:
+            d = efloat_decode(desc['es'], desc['nbits'], desc['enable_inf'], desc['nan_kind'], desc['eoffset'], bits)
+        if d[0] == 'nan':
+            return dict(nan=True, inf=False, neg=bool(d[1]), mag=0)
+        if d[0] == 'inf':
+            return dict(nan=False, inf=True, neg=bool(d[1]), mag=0)
+        return dict(nan=False, inf=False, neg=bool(d[1]), mag=d[2] * Fraction(2) ** K)
+    if fam == 'Fixed':
+        nb, sc = desc['nbits'], desc['scale']
+        neg = desc['signed'] and bits >= (1 << (nb - 1))
+        mag = ((1 << nb) - bits) if neg else bits
+        return dict(nan=False, inf=False, neg=neg, mag=mag * Fraction(2) ** (sc + K))
+    if fam == 'SMFixed':
+        nb, sc = desc['nbits'], desc['scale']
+        neg = bool(bits >> (nb - 1))
+        return dict(nan=False, inf=False, neg=neg, mag=(bits & ((1 << (nb - 1)) - 1)) * Fraction(2) ** (sc + K))
+    if fam == 'Exp':
+        nb, eo = desc['nbits'], desc.get('eoffset', 0)
+        if bits == (1 << nb) - 1:
+            return dict(nan=True, inf=False, neg=False, mag=0)
+        return dict(nan=False, inf=False, neg=False, mag=Fraction(2) ** (bits - ((1 << (nb - 1)) - 1 - eo) + K))
+    raise ValueError(fam)
